@@ -3,6 +3,9 @@ import Proofs.OalStmt
 import Gen.OalPrec
 import Proofs.OalLayout
 import Proofs.OalTight
+import Proofs.OalFuel
+import Proofs.OalMinimal
+import Proofs.OalText
 
 /-!
   C07 — OAL parsing follows the precedence table and ignores layout.   (TOKEN level)
@@ -13,6 +16,13 @@ import Proofs.OalTight
   GENERATED from bridgepoint/oal.py on every run: Gen/OalPrec.lean.  The interface to the text is the token
   stream of the real PLY lexer; layout (white space, line breaks, comments) is removed there and is tied to
   this model by the correspondence harness, the character-level lexer being modelled for C13/C08.
+  Sections 7-9 (audit round 1): the fuel of the parsers is never the reason for a rejection (arbitrary token
+  lists); `render` writes no parenthesis that could be left out; TEXT → TREE: the character-level lexer model
+  composed with the parser model (`text_roundtrip`).  The last section re-exports builder-A2's layout theorems.
+  Kinds of theorems (tools/meta/C07.json `theorem_kinds`): `table_wellformed`, `prec_facts`, `prec_order`,
+  `table_stmt_wellformed`, `grammar_shape`, `expr_grammar_shape`, `name_classes` are decisions over generated /
+  literal tables, not property theorems; the `_oal` / `_fuel` forms and `left_assoc`, `tighter_binds`,
+  `unary_binds_tightest`, `*_reject_not_exhaustion`, `render_erase_paren`, `text_roundtrip_blanks` are corollaries.
 -/
 namespace PyxProps.C07
 open Pyx.Oal
@@ -154,6 +164,15 @@ theorem paren_kept_as_operand (t : Tbl) (wf : t.WF) (e x : Expr) (o : Tok) (lv :
   exact ⟨parse_bin_texts wf ho hx he (operandText_render t x _) (Or.inr rfl) hs,
     parse_bin_texts wf ho he hx (Or.inr rfl) (operandText_render t x _) hs⟩
 
+/-- the same under a unary operator: `∘ ( e )` parses as `∘(e)` for every `e` (also when the parentheses are not
+    required), and `∘ e` without parentheses does whenever the level of `e` allows it -/
+theorem paren_kept_as_operand_unary (t : Tbl) (wf : t.WF) (e : Expr) (o : Tok) (ho : t.un o.kind = true)
+    (he : e.Ok t) (rest : List Tok) (hs : Stops t 0 rest) :
+    parseExprTop t (o :: LP :: (render t e 0 ++ [RP]) ++ rest) = some (.un o e, rest) ∧
+    (t.ulevel ≤ e.level t → parseExprTop t (o :: (render t e 0 ++ rest)) = some (.un o e, rest)) := by
+  rw [render_zero]
+  exact ⟨parse_un_text wf ho he (Or.inr rfl) hs, fun hl => parse_un_text wf ho he (Or.inl ⟨rfl, hl⟩) hs⟩
+
 /-! ## 4. the fully parenthesised rendering (every operator node in its own parentheses) -/
 
 theorem paren_roundtrip (t : Tbl) (wf : t.WF) (e : Expr) (hok : e.Ok t) (rest : List Tok) (hs : Stops t 0 rest) :
@@ -215,6 +234,84 @@ theorem name_classes :
     (∀ k : Kind, k.isIdent = true ↔ (k.isVarName = true ∨ k ∈ kwIdent2 ++ kwIdent3 ++ kwIdent4)) :=
   ⟨forall_kind (by decide), forall_kind (by decide)⟩
 
+/-! ## 7. the fuel of the model parsers is never what makes them reject (ARBITRARY token lists) -/
+
+/-- a result the expression parser gives with ANY amount of fuel is the result with EVERY amount ≥ 2·|ts| + 2
+    (every recursive call consumes a token or is followed by one that does), for any table -/
+theorem expr_fuel_independent (t : Tbl) (f m : Nat) (ts : List Tok) (r : Expr × List Tok)
+    (h : parseExpr t f m ts = some r) (g : Nat) (hg : 2 * ts.length + 2 ≤ g) : parseExpr t g m ts = some r :=
+  parseExpr_fuel_indep t h g hg
+
+/-- hence: what the fuel-free `parseExprTop` rejects, every amount of fuel rejects — a rejection by the model is
+    never an exhaustion of the fuel -/
+theorem expr_reject_not_exhaustion (t : Tbl) (ts : List Tok) (h : parseExprTop t ts = none) (f : Nat) :
+    parseExpr t f 0 ts = none :=
+  parseExprTop_complete t h f
+
+/-- the same for statements: blocks, nested blocks, elif lists, else clauses, navigation chains, argument lists -/
+theorem stmt_fuel_independent (t : Tbl) (f : Nat) (ts : List Tok) (r : Block × List Tok)
+    (h : parseBlock t f ts = some r) (g : Nat) (hg : 2 * ts.length + 2 ≤ g) : parseBlock t g ts = some r :=
+  parseBlock_fuel_indep t h g hg
+
+theorem stmt_reject_not_exhaustion (t : Tbl) (ts : List Tok) (h : parseStmts t ts = none) (f : Nat) (b : Block) :
+    parseBlock t f ts ≠ some (b, []) :=
+  parseStmts_complete t h f b
+
+/-! ## 8. `render` writes no parenthesis that could be left out -/
+
+/-- whatever token list the parser reads the tree `e` from — not only printer output — contains at least as many
+    opening parentheses as `render t e m` (plus those of the unread rest), for any well-formed table -/
+theorem render_minimal (t : Tbl) (wf : t.WF) (f m : Nat) (ts : List Tok) (e : Expr) (rest : List Tok)
+    (h : parseExpr t f m ts = some (e, rest)) (hm : m ≤ t.ulevel) : lp (render t e m) + lp rest ≤ lp ts :=
+  Pyx.Oal.render_minimal wf h hm
+
+/-- erase any one `(` of the rendering and, with it, any other tokens (its `)`, say): the remaining tokens are
+    rejected or parse to a DIFFERENT tree, with any fuel and any unread rest -/
+theorem render_erase_paren (t : Tbl) (wf : t.WF) (e : Expr) (i : Nat) (a : Tok) (hi : (render t e 0)[i]? = some a)
+    (ha : a.kind = .LPAREN) (ts : List Tok) (hsub : ts.Sublist ((render t e 0).eraseIdx i)) (f : Nat)
+    (rest : List Tok) : parseExpr t f 0 ts ≠ some (e, rest) :=
+  Pyx.Oal.render_erase_paren wf e i a hi ha ts hsub f rest
+
+/-- `render` parenthesises an operand exactly when its level is below the level its position requires -/
+theorem render_parens_iff (t : Tbl) (e : Expr) (need : Nat) :
+    (render t e need = LP :: (renderRaw t e ++ [RP]) ∧ e.level t < need) ∨
+    (render t e need = renderRaw t e ∧ need ≤ e.level t) :=
+  Pyx.Oal.render_parens_iff t e need
+
+/-! ## 9. TEXT → TREE: the character-level lexer model composed with the token-level parser model
+
+  `LexemesOk b` (decidable): the token stream the printer emits for `b` splits into lexical units (one per token,
+  a namespace fused with its `::`) each of which is a lexeme the lexer returns as exactly that token
+  (Boolean checks, proved sound for `WellWord` / `WellNumber` / `WellFraction` / `WellString` / `WellTicked` /
+  `WellEnd` / `WellNs` / the literal rules).  `PairOk` is the layout condition of `layout_irrelevant_tight`:
+  between two units ANY layout string (blanks, tabs, CR, LF, block and line comments), or nothing where
+  `tightOk` allows. -/
+
+open Pyx.OalText (LexemesOk unitsOf withSeps) in
+/-- for every `Ok` tree whose lexemes are lexable and every accepted layout: lex the text, convert the tokens,
+    parse — the tree comes back -/
+theorem text_roundtrip (b : Block) (hok : b.Ok table) (us : List Pyx.OalLex.LexUnit)
+    (hl : unitsOf (printStmts table b) = some us) (sep0 : List Char) (seps : List (List Char))
+    (hlen : seps.length = us.length) (h0 : Pyx.OalLex.Layout0 sep0) (h : Pyx.OalLex.PairOk (withSeps us seps)) :
+    parseStmts table (Pyx.OalLex.toParserToks (Pyx.OalLex.lex (sep0 ++ Pyx.OalLex.renderT (withSeps us seps)))) =
+      some b :=
+  Pyx.OalText.text_roundtrip_of b us hl sep0 seps hlen h0 h (stmt_roundtrip_oal b hok)
+
+open Pyx.OalText (LexemesOk unitsOf) in
+/-- the domain of `text_roundtrip` is not empty for any `LexemesOk` tree: one blank after every lexeme is an
+    accepted layout, so that text parses back to the tree -/
+theorem text_roundtrip_blanks (b : Block) (hok : b.Ok table) (hlex : LexemesOk b) :
+    ∃ us, unitsOf (printStmts table b) = some us ∧
+      parseStmts table (Pyx.OalLex.toParserToks (Pyx.OalLex.lex (Pyx.OalLex.renderT (us.map (fun u => (u, [' '])))))) =
+        some b := by
+  obtain ⟨us, hus⟩ := Option.isSome_iff_exists.mp hlex
+  refine ⟨us, hus, ?_⟩
+  have hw := (Pyx.OalText.unitsOf_sound _ us hus).2
+  have := text_roundtrip b hok us hus [] (us.map fun _ => [' ']) (by simp) .nil
+    (by rw [Pyx.OalText.withSeps_blanks]; exact Pyx.OalText.pairOk_blanks us hw)
+  rw [Pyx.OalText.withSeps_blanks] at this
+  exact this
+
 /-! ## non-vacuity: concrete instances of the hypotheses, and what the theorems then say -/
 
 section examples
@@ -242,12 +339,24 @@ private def e3 : Expr :=
       (.ocall .self (nm "op") .nil))
 
 -- prec_roundtrip / prec_roundtrip_oal: hypotheses are satisfiable, the required parentheses are written …
-example : e1.Ok table := by simp [e1, Expr.Ok, va, vb, n3, plus, times, nm, Kind.isVarName]; decide
-example : e3.Ok table := by
+private theorem e1_ok : e1.Ok table := by simp [e1, Expr.Ok, va, vb, n3, plus, times, nm, Kind.isVarName]; decide
+private theorem e3_ok : e3.Ok table := by
   simp [e3, Expr.Ok, Params.Ok, va, plus, times, knot, Expr.isChain, Expr.isIndexable, Expr.isStruct, nm,
     Kind.isVarName, Kind.isIdent]
   decide
-example : Stops table 0 [semi] := stops_afterExpr table_stmt_wellformed 0 semi [] rfl
+private theorem stops_semi : Stops table 0 [semi] := stops_afterExpr table_stmt_wellformed 0 semi [] rfl
+-- the theorems APPLIED (every hypothesis discharged for a concrete tree)
+example : parseExprTop table (render table e3 0 ++ [semi]) = some (e3, [semi]) :=
+  prec_roundtrip table table_wellformed e3 e3_ok [semi] stops_semi
+example : parseExprTop table (renderFull e1 ++ [semi]) = some (e1, [semi]) :=
+  paren_roundtrip table table_wellformed e1 e1_ok [semi] stops_semi
+example : parseExprTop table (knot :: LP :: (render table e1 0 ++ [RP]) ++ [semi]) = some (.un knot e1, [semi]) :=
+  (paren_kept_as_operand_unary table table_wellformed e1 knot (by decide) e1_ok [semi] stops_semi).1
+example : lp (render table e3 0) + lp [semi] ≤ lp (renderFull e3 ++ [semi]) :=
+  render_minimal table table_wellformed _ 0 _ e3 [semi] (paren_roundtrip table table_wellformed e3 e3_ok [semi] stops_semi)
+    (Nat.zero_le _)
+example : parseExpr table 1000 0 (render table e3 0 ++ [semi]) = some (e3, [semi]) :=
+  expr_fuel_independent table _ 0 _ _ (prec_roundtrip table table_wellformed e3 e3_ok [semi] stops_semi) 1000 (by decide)
 example : render table e1 0 = [LP, tk .ID "a", plus, tk .ID "b", RP, times, tk .NUMBER "3"] := by decide
 example : parseExprTop table (render table e1 0 ++ [semi]) = some (e1, [semi]) := by rfl
 example : parseExprTop table (render table e3 0 ++ [semi]) = some (e3, [semi]) := by rfl
@@ -288,11 +397,15 @@ private def prog : Block :=
   (.cons (.ret none) .nil))
 
 -- stmt_roundtrip / stmt_roundtrip_oal
-example : prog.Ok table := by
+private theorem prog_ok : prog.Ok table := by
   simp [prog, Block.Ok, Stmt.Ok, Elifs.Ok, Else.Ok, Expr.Ok, Params.Ok, EvSpec.Ok, EvTarget.Ok, NavStep.Ok, Phrase.Ok,
     optPhraseOk, optExprOk, va, n3, lt, knot, eqeq, Expr.isVarAccess, Expr.isHook, Expr.isSelf, Expr.isChain, nm,
     Kind.isVarName, Kind.isIdent]
   decide
+example : parseStmts table (printStmts table prog) = some prog := stmt_roundtrip_oal prog prog_ok
+example : parseBlock table 5000 (printStmts table prog) = some (prog, []) := by
+  have h : parseBlock table (fuelForS (printStmts table prog)) (printStmts table prog) = some (prog, []) := by rfl
+  exact stmt_fuel_independent table _ _ _ h 5000 (by decide)
 example : (printStmts table prog).length = 57 := by decide
 example : parseStmts table (printStmts table prog) = some prog := by rfl
 example : BlockEnd [tk .END_IF "end if", semi] := blockEnd_cons _ _ rfl
@@ -327,6 +440,56 @@ example : parseStmts table [tk .SELECT "select", tk .EQUAL "=", tk .NUMBER "1", 
 example : parseStmts table [nm "x", tk .EQUAL "=", tk .OF "of", semi] = none := by rfl
 example : parseStmts table [nm "x", tk .EQUAL "=", tk .LOOP "loop", semi] = none := by rfl
 
+-- paren_kept_as_operand_unary: `not ( a )`
+example : parseExprTop table [knot, LP, tk .ID "a", RP, semi] = some (.un knot va, [semi]) := by rfl
+
+-- expr_reject_not_exhaustion / stmt_reject_not_exhaustion: `a < b < 3` is rejected with every fuel; too little
+-- fuel does make the parser give up (so the statements are not about a parser that ignores its fuel)
+example : ∀ f, parseExpr table f 0 [tk .ID "a", lt, tk .ID "b", lt, tk .NUMBER "3", semi] = none :=
+  expr_reject_not_exhaustion table _ (by rfl)
+example : parseExpr table 3 0 [tk .ID "a", plus, tk .ID "b", semi] = none := by rfl
+example : parseExpr table 10 0 [tk .ID "a", plus, tk .ID "b", semi] = some (.bin va plus vb, [semi]) := by rfl
+example : ∀ f b, parseBlock table f [nm "x", tk .EQUAL "=", tk .OF "of", semi] ≠ some (b, []) :=
+  fun f b => stmt_reject_not_exhaustion table _ (by rfl) f b
+
+-- render_minimal / render_erase_paren: `(a + b) * 3` has one `(`; without the pair the tokens are `a + b * 3`,
+-- which is a different tree
+example : lp (render table e1 0) = 1 := by decide
+example : ∀ f rest, parseExpr table f 0 [tk .ID "a", plus, tk .ID "b", times, tk .NUMBER "3"] ≠ some (e1, rest) :=
+  fun f rest => render_erase_paren table table_wellformed e1 0 LP (by decide) rfl _ (by decide) f rest
+example : parseExprTop table [tk .ID "a", plus, tk .ID "b", times, tk .NUMBER "3"] =
+    some (.bin va plus (.bin vb times n3), []) := by rfl
+
+-- text_roundtrip: the hypotheses hold of the programs above, and of a text without a single blank
+example : Pyx.OalText.LexemesOk prog := by decide +kernel
+example : ∃ us, Pyx.OalText.unitsOf (printStmts table prog) = some us ∧
+    parseStmts table (Pyx.OalLex.toParserToks (Pyx.OalLex.lex (Pyx.OalLex.renderT (us.map (fun u => (u, [' '])))))) =
+      some prog := text_roundtrip_blanks prog prog_ok (by decide +kernel)
+example : Pyx.OalText.LexemesOk kwprog := by decide +kernel
+/-- `x=a+b*(c-1);` -/
+private def tprog : Block :=
+  .cons (.assign false (.var (nm "x")) (.bin va plus (.bin vb times (.bin (.var (nm "c")) minus (.int "1"))))) .nil
+private def tunits : List Pyx.OalLex.LexUnit := (Pyx.OalText.unitsOf (printStmts table tprog)).getD []
+example : parseStmts table (Pyx.OalLex.toParserToks (Pyx.OalLex.lex "x=a+b*(c-1);".toList)) = some tprog := by
+  have hok : tprog.Ok table := by
+    simp [tprog, Block.Ok, Stmt.Ok, Expr.Ok, va, vb, plus, times, minus, Expr.isVarAccess, nm, Kind.isVarName]
+    decide
+  have hus : Pyx.OalText.unitsOf (printStmts table tprog) = some tunits := by
+    have h : (Pyx.OalText.unitsOf (printStmts table tprog)).isSome = true := by decide +kernel
+    unfold tunits
+    cases hx : Pyx.OalText.unitsOf (printStmts table tprog) with
+    | none => rw [hx] at h; cases h
+    | some v => rfl
+  have hp : Pyx.OalText.pairOkB (Pyx.OalText.withSeps tunits (tunits.map fun _ => [])) = true := by decide +kernel
+  have ht : ([] : List Char) ++ Pyx.OalLex.renderT (Pyx.OalText.withSeps tunits (tunits.map fun _ => [])) =
+      "x=a+b*(c-1);".toList := by decide +kernel
+  have := text_roundtrip tprog hok tunits hus [] (tunits.map fun _ => []) (by simp) .nil
+    (Pyx.OalText.pairOkB_sound _ hp)
+  rw [ht] at this
+  exact this
+-- an identifier spelled `end` is outside `LexemesOk` (the lexer reads `end if` as ONE token)
+example : ¬ Pyx.OalText.LexemesOk (.cons (.assign false (.var (nm "end")) (.int "1")) .nil) := by decide +kernel
+
 -- grammar_shape: the compared lists are not empty
 set_option maxRecDepth 4000 in
 example : stmtGrammar.length = 153 ∧ exprGrammar.length = 66 := by decide
@@ -338,8 +501,9 @@ end examples
     GENERATED rule table).  Lexemes written one after the other with ANY layout between them — non-empty
     mixes of blank, tab, CR, LF, block comments and `//` comments; the layout before the first and after the last
     lexeme may be empty — are returned by the lexer exactly, in order, with their kinds: no token is split,
-    merged or swallowed.  Together with `stmt_roundtrip` (token level) this is the statement's "with any
-    whitespace, line breaks, comments … parses back to exactly that tree" for the modelled lexer and parser.
+    merged or swallowed.  The composition with `stmt_roundtrip` (token level) — the statement's "with any
+    whitespace, line breaks, comments … parses back to exactly that tree" for the modelled lexer and parser — is
+    `text_roundtrip` (section 9), stated over the tight variant below.
     Side conditions are lexical facts of the language: the bare word `end` is not a lexeme (`end`+space+`if` is one
     token), a `/` token is not directly followed by a separator starting with `/`, a namespace and its `::`
     are one fused unit.  The tight variant (no separator where the next character cannot extend the token) is
